@@ -445,7 +445,7 @@ def l10_obligations(repo, ci, R):
                 if ev[0] == "call" and ev[1] == "evaluate":
                     t = ev[2]
                     if t.eq(SELF):
-                        if not (C == "Option" and meth == "validate"):
+                        if not (C in ("Option", "_AllOptions") and meth == "validate"):
                             bad.append(f"evaluates itself in {meth}")
                         continue
                     if str(t).startswith(FLAG_PREFIX) and "LABREA." in str(t):
